@@ -801,9 +801,8 @@ def r4(prog, rep, anchors=True):
     return n
 
 def terminator_after(prog, fn, call, al, cnt, res, cfg):
-    """a store of 0 to dst[j], j constant <= cnt-1 ... only the last byte the copy can leave unterminated matters: j == cnt-1
-    or any j given the copy wrote < j bytes is not provable here, so require j == cnt - 1 (or the last array byte when cnt == N);
-    it must lie on every path from the copy to the first other use of the array."""
+    """a store of 0 to dst[j], j constant, 0 <= j <= cnt and j < N (the copy writes dst[0..cnt-1], so the string then has
+    at most j characters); it must lie on every path from the copy to the first other use of the array."""
     target = al[2]
     for x in cfg.reach(call):
         if x.op != 'store' or x.ops[0] != ('int', 0): continue
@@ -812,7 +811,8 @@ def terminator_after(prog, fn, call, al, cnt, res, cfg):
         b = d.ops[0]; bd = fn.def_of(b)
         base = ('local', bd.res) if bd is not None and bd.op == 'alloca' else ('global', b[1]) if b[0] == 'glob' else None
         if base != target or len(d.ops) != 3 or d.ops[2][0] != 'int': continue
-        if d.ops[2][1] != cnt - 1 and not (cnt == al[0] * al[1] and d.ops[2][1] == cnt - 1): continue
+        # strncpy writes dst[0..cnt-1]; a NUL stored at any index j <= cnt (inside the array) bounds the string
+        if not (0 <= d.ops[2][1] <= cnt and d.ops[2][1] < al[0] * al[1]): continue
         # dominates every later read of the array: no load/call using the array is reachable from the copy avoiding the store
         uses = [y for y in cfg.reach(call, avoid=[x]) if y is not x and uses_array(fn, y, target)]
         if not uses: return x
